@@ -107,6 +107,7 @@ func rulesC17(c *Ctx) {
 
 	c.Rule("C17.globals", "no function other than package initialisation stores to, or calls a mutating method on, memory reachable from a package-level variable (directly, through callees or through resolved callbacks); absence of writes to shared locations is what makes concurrent parses and reads race-free")
 	globalAliasRule(c, "C17.globalalias")
+	regexConfigRule(c, "C17.regexconfig")
 	n := globalWrites(c, "C17.globals", nil)
 	c.OK("C17.globals", "all non-init functions", 0, fmt.Sprintf("%d function bodies examined; those with a global write are listed as violations", n))
 	c.Floor("C17.globals", n, 500)
